@@ -74,12 +74,10 @@ def _rename_definition(text, name, newname, fname):
     """Rename the definition (not prototypes, not call sites) of function `name`.
     Definitions in this code base start at column 0: `void addbounce(id,recip,report)`,
     `static void get(unsigned char *uc)`, or the bare name on its own line after the type."""
-    pat = re.compile(r"^((?:[A-Za-z_][\w \t\*]*?[ \t\*])?)%s\(([^;{]*?)\)([^;]*?)$" % re.escape(name), re.M)
+    pat = re.compile(r"^((?:[A-Za-z_][\w \t\*]*?[ \t\*])?)%s\(([^()]*)\)" % re.escape(name), re.M)
     hits = []
     for m in pat.finditer(text):
-        line_end = text.find("\n", m.start())
-        line = text[m.start():line_end if line_end >= 0 else len(text)]
-        if line.rstrip().endswith(";") and "{" not in line:
+        if re.match(r"\s*;", text[m.end():m.end() + 40]):
             continue  # prototype
         head = m.group(1).strip()
         if head in ("return", "else", "if", "while", "for", "switch", "case"):
